@@ -1,4 +1,5 @@
 import GenjaxVerif.Lemmas.GFIUpdate
+import GenjaxVerif.Lemmas.GFIKept
 import GenjaxVerif.Props.GFITest
 /-!
 # C07 — regenerate resamples exactly the selected choices
@@ -12,6 +13,13 @@ theorem C07_regenerate_weight (ds : DistSem) (p : Prog) (i : In) (r : Res) (told
     (h : run ds .regen p i = .ok r) (ho : i.old = some told) (hs : Shape p told) :
     r.w = r.tr.score - told.score :=
   regen_w ds p i r told h ho hs
+
+/-- Every unselected choice keeps its value (for every program supporting Regenerate, selection,
+    key and previous trace of the program's shape; index levels are transparent to selections). -/
+theorem C07_unselected_unchanged (ds : DistSem) (p : Prog) (i : In) (r : Res) (told : Trace)
+    (h : run ds .regen p i = .ok r) (ho : i.old = some told) (hs : Shape p told) :
+    KeptS i.sel told r.tr :=
+  regen_kept ds p i r told h ho hs
 
 /-- At a primitive choice: selected ⇒ redrawn from the prior at the CURRENT arguments with the
     key handed to this site, and the old value goes to the backward constraint; unselected ⇒ the
